@@ -205,6 +205,7 @@ static void a_once(const plan_t *p)
     mode_g = p->mode; stray_call = 0;
     nobj = (int)p->cfg[CF_NOBJ]; if (nobj < 2) nobj = 2; if (nobj > NOBJ) nobj = NOBJ;
     nbuf = 0; maxviews = 0;
+    memset(arr, (int)(unsigned char)p->cfg[CF_JUNK], sizeof arr);
     for (o = 0; o <= NOBJ; o++) { cstl_array_init(&arr[o]); if (o < NOBJ) { mo[o].buf = -1; mo[o].off = mo[o].len = 0; } }
 
     for (k = 0; k < p->nops; k++) {
